@@ -188,6 +188,27 @@ def _fit_tilt_mono(chk, f, p, opd, ptt, clause):
     chk.ob(clause, 'D-flow', f.key, 'monolithic: OPD := OPD - (tip/tilt ramp reshaped to the OPD)', oks, '', f.loc())
 
 
+def _explicit_ramp(ramp, ptt, k):
+    """ramp = sum over j in {1, 2} of coeff[j] * ptt[3k + j] -> True; rows of another segment, the piston row, or a
+    coefficient paired with the wrong row -> False; anything else -> None"""
+    if not isinstance(ramp, Poly) or not ramp.terms:
+        return None
+    rows = []
+    for m, c in ramp.terms:
+        basis = [a for a, e in m if a[0] == 'idx' and Poly.atom(a[1]) == ptt and isinstance(a[2], Poly)]
+        coefs = [a for a, e in m if a[0] == 'idx' and isinstance(a[2], Poly) and a[2].const_value() is not None
+                 and any(is_app(x, 'linalg.lstsq') or x[0] == 'loop' for x in nf.value_atoms(Poly.atom(a[1])))]
+        if len(basis) != 1 or len(coefs) != 1 or c != 1:
+            return None
+        j = basis[0][2] - 3 * k
+        if j.const_value() is None:
+            return False                    # a row of another segment's block
+        rows.append((int(j.const_value()), int(coefs[0][2].const_value())))
+    if sorted(rows) == [(1, 1), (2, 2)]:
+        return True
+    return False
+
+
 def _fit_tilt_seg(chk, f, p, opd, ptt, clause):
     lps = [lp for lp in p.state.loops if lp['func'] == f.key]
     if not lps:
@@ -229,8 +250,13 @@ def _fit_tilt_seg(chk, f, p, opd, ptt, clause):
                     da = d.single_atom() if isinstance(d, Poly) else None
                     if da is not None and is_app(da, 'm:reshape'):
                         es = da[2][0].single_atom()
-                        good = es is not None and is_app(es, 'einsum') and es[2][1] == nf.index(ptt, Slice(3 * k + 1, 3 * k + 3))
-                        oko = good if oko is None else (oko and good)
+                        if es is not None and is_app(es, 'einsum'):
+                            good = es[2][1] == nf.index(ptt, Slice(3 * k + 1, 3 * k + 3))
+                        else:
+                            # the ramp written out: c[1]*basis[3k+1] + c[2]*basis[3k+2] (each coefficient with its own row)
+                            good = _explicit_ramp(da[2][0], ptt, k)
+                        if good is not None:
+                            oko = good if oko is None else (oko and good)
     chk.ob(clause, 'D-flow', f.key, 'segmented: each segment is fitted against its own three basis rows', okl, det, f.loc())
     chk.ob(clause, 'D-flow', f.key, 'segmented: (OPD - that segment\'s tip/tilt ramp) * that segment\'s mask', oko, '', f.loc())
     st = [e for e in p.events if e.kind == 'write' and e.data.get('how') == 'attrstore' and e.data.get('attr') == 'opd']
